@@ -26,6 +26,9 @@ struct Ctl {
 	trace: Vec<String>,
 	mask: fn(&str) -> bool,
 	panics: Vec<String>,
+	/// labels that park only at their first occurrence in an execution (later occurrences pass through)
+	once: &'static [&'static str],
+	seen_once: Vec<&'static str>,
 }
 
 fn mask_all(_: &str) -> bool {
@@ -33,7 +36,7 @@ fn mask_all(_: &str) -> bool {
 }
 
 thread_local! {
-	static CTL: RefCell<Ctl> = RefCell::new(Ctl { active: false, parked: Vec::new(), next_id: 0, trace: Vec::new(), mask: mask_all, panics: Vec::new() });
+	static CTL: RefCell<Ctl> = RefCell::new(Ctl { active: false, parked: Vec::new(), next_id: 0, trace: Vec::new(), mask: mask_all, panics: Vec::new(), once: &[], seen_once: Vec::new() });
 }
 
 /// A scheduling point: parks the calling task until the driver releases it.
@@ -64,6 +67,13 @@ impl Future for Point {
 				if !c.active || !(c.mask)(&label) {
 					this.state = PState::Done;
 					return Poll::Ready(());
+				}
+				if let Some(o) = c.once.iter().find(|o| **o == label.as_ref()).copied() {
+					if c.seen_once.contains(&o) {
+						this.state = PState::Done;
+						return Poll::Ready(());
+					}
+					c.seen_once.push(o);
 				}
 				let id = c.next_id;
 				c.next_id += 1;
@@ -206,6 +216,10 @@ pub trait Scenario: Sync {
 	fn max_steps(&self) -> usize {
 		400
 	}
+	/// labels at which a task parks only the first time it gets there in an execution
+	fn once_labels(&self) -> &'static [&'static str] {
+		&[]
+	}
 	/// the scenario uses kernel sockets (loopback TCP): the runtime gets an I/O driver
 	fn needs_io(&self) -> bool {
 		false
@@ -244,6 +258,8 @@ pub fn run_one<S: Scenario>(s: &S, prefix: &[usize], want_labels: bool) -> Exec<
 		c.trace.clear();
 		c.panics.clear();
 		c.mask = s.mask();
+		c.once = s.once_labels();
+		c.seen_once.clear();
 	});
 	let rt = new_runtime_io(s.needs_io());
 	let mut decisions = Vec::new();
